@@ -10,11 +10,11 @@ CFG = {
                    "has exactly min(limit, |full|-offset) rows, and for every distinct sort key contains exactly as many rows as the window [offset, offset+limit) of the ordered full result must hold "
                    "(ties may appear in any order)"
                    " A third scenario drives the ordered secondary index through its public step API (arbitrary flush/merge subsets) and checks after every step that the streaming and the synchronous interface return every entry in the requested key range exactly once in key order (with MaxBatchSize>0: the ordered top of the result)."),
-    "level_note": "trusted: the window oracle and the row model; standalone node and the bare ordered index (the cluster merge of partial ordered results is not covered)",
+    "level_note": "scenario cluster-measure-order asks the same measure windows on 1 liaison + 1-4 data nodes over simnet (each data node returns its sorted rows, the liaison's distributed plan merges them and applies offset/limit; shards 1-3, replicas 0-2, fault-free transport); trusted: the window oracle and the row model; standalone node and the bare ordered index (the cluster merge of partial ordered results is not covered)",
     "budget": {"quick": 60, "thorough": 1200},
     "rule": ("each seed draws a schema, 2-9 history steps (batches up to 120 rows with small-domain values, so sort keys repeat / clock advances), 3-10 ordered queries (optional time bounds on written timestamps; "
              "offset 0 / inside / at the end / beyond; limit tiny / inside / beyond). Non-trivial = all queries answered; distinct = canonical event-log digests"),
-    "expected_probes": ["reach.sidx_flush", "reach.sidx_merge_arbitrary_subset", "reach.duplicate_sort_keys", "reach.offset_inside_result", "reach.order_by_indexed_tag"],
+    "expected_probes": ["reach.rows_spread_over_data_nodes", "reach.sidx_flush", "reach.sidx_merge_arbitrary_subset", "reach.duplicate_sort_keys", "reach.offset_inside_result", "reach.order_by_indexed_tag"],
     "real_vs_stub": {
         "real": ["banyand/internal/sidx public step API and both query interfaces", "banyand/stream + banyand/measure query paths (sort by time across parts/shards/segments, index-ordered iteration)", "pkg/query/logical + executors (limit/offset)", "pkg/index/inverted", "liaison front-end, banyand/query"],
         "stub": ["metadata registry (simmeta)", "gRPC transport", "clock (testing/synctest)"],
